@@ -12,7 +12,7 @@ RULE = ("(a) pass: random programs (anonymous and native gate sets) with subcirc
         "non-trivial = program contains a subcircuit block; distinct = S-expression + mode")
 ASSUMPTIONS = ["reference expansion in vf/meaning.py", "harness native gate set (vf/gateset.py)"]
 TIERS = {"quick": {"shards": 8, "budget_s": 60}, "thorough": {"shards": 16, "budget_s": 300}}
-REQUIRE = {"subcircuit-body-with-explicit-prepare-or-measure": 300, "route:build": 500, "native:partial": 100, "calls-after-earlier-call-on-same-object": 500, "sub-in-macro": 20, "sub-in-loop": 20, "mode:pass": 200, "mode:exec": 100, "native-bounding-gates": 50,
+REQUIRE = {"native:only-one-bounding-gate": 40, "caller:names-mixed": 100, "subcircuit-body-with-explicit-prepare-or-measure": 300, "route:build": 500, "native:partial": 100, "calls-after-earlier-call-on-same-object": 500, "sub-in-macro": 20, "sub-in-loop": 20, "mode:pass": 200, "mode:exec": 100, "native-bounding-gates": 50,
            "caller-bounding-gates": 20, "exec-readouts-compared": 100}
 
 NATIVE = None
@@ -64,6 +64,9 @@ def gate_statement_ids(block):
     return out
 
 
+NAMED = []
+
+
 def bounding_defs(block, pname, mname, exclude=()):
     """gate_def objects of every prepare/measure statement reachable from block that the pass
     created (statements that already existed in the input are excluded by identity)."""
@@ -76,6 +79,7 @@ def bounding_defs(block, pname, mname, exclude=()):
         if isinstance(s, GateStatement):
             if s.name in (pname, mname) and id(s) not in exclude:
                 out.append(s.gate_def)
+                NAMED.append((s.name, s.gate_def))
         elif isinstance(s, LoopStatement):
             stack.append(s.statements)
         elif isinstance(s, BlockStatement):
@@ -91,8 +95,10 @@ def judge_pass(case):
         return "skipped:illegal-nesting", []
     gates = None
     if case.get("native") == "partial":
-        # a gate set that lacks the bounding gates: the pass has to supply them without touching its input
-        gates = {k: v for k, v in native().items() if k not in ("prepare_all", "measure_all", "I_prepare_all", "I_measure_all")}
+        # a gate set that lacks the bounding gates (or, with `keep`, has just one of them): the pass has to supply what is
+        # missing without touching its input -- and to use what is there
+        lacking = ("prepare_all", "measure_all", "I_prepare_all", "I_measure_all")
+        gates = {k: v for k, v in native().items() if k not in lacking or k == case.get("keep")}
     elif use_native:
         gates = native()
     if case.get("route") == "build":
@@ -133,6 +139,13 @@ def judge_pass(case):
     elif caller == "names-new":
         args = ("prep_x", "meas_x")
         pname, mname = "prep_x", "meas_x"
+    elif caller == "names-mixed-p":
+        # one name the gate set has, one it lacks
+        args = ("prepare_all", "meas_x")
+        mname = "meas_x"
+    elif caller == "names-mixed-m":
+        args = ("prep_x", "measure_all")
+        pname = "prep_x"
     fails = []
     if case.get("prior"):
         # an earlier call on the SAME circuit object with other bounding gates must leave nothing behind
@@ -157,7 +170,7 @@ def judge_pass(case):
             return "ok", fails + [("malformed-result", {"error": str(ex)[:200]})]
         got = M.meaning(kr, expand_macros=False, expand_a1=True)
         got_macros = M.macro_meanings(kr, expand_a1=True)
-        if caller in ("defs", "names-new"):
+        if caller in ("defs", "names-new", "names-mixed-p", "names-mixed-m"):
             ren = lambda t: _rename(t, {"my_prep": "prepare_all", "my_meas": "measure_all", "prep_x": "prepare_all", "meas_x": "measure_all"})
             got, got_macros = ren(got), {k: (p, ren(b)) for k, (p, b) in got_macros.items()}
         if not M.tree_equal(expected, got):
@@ -182,13 +195,21 @@ def judge_pass(case):
         old = gate_statement_ids(c.body)
         for m in c.macros.values():
             old |= gate_statement_ids(m.body)
+        del NAMED[:]
         defs = bounding_defs(r.body, pname, mname, old)
         for m in r.macros.values():
             defs += bounding_defs(m.body, pname, mname, old)
+        if caller not in ("defs", "defs-native-names"):
+            # a bounding gate named like a gate of the circuit's own gate set IS that gate, each name on its own
+            for nm, d in NAMED:
+                if nm in native_before and d is not native_before[nm]:
+                    fails.append(("bounding-gate-not-native:one-of-the-two-names-missing-from-the-gate-set"
+                                  if (pname in native_before) != (mname in native_before) else "bounding-gate-not-native:by-name", {"gate": nm}))
+                    break
         if caller in ("defs", "defs-native-names"):
             if any(d is not pdef and d is not mdef for d in defs):
                 fails.append(("bounding-gate-not-callers" + (":caller-uses-native-name" if caller != "defs" else ""), {}))
-        elif use_native and case.get("native") != "partial":
+        elif use_native and case.get("native") != "partial" and caller in (None, "names"):
             ng = c.native_gates
             if any(d is not ng["prepare_all"] and d is not ng["measure_all"] for d in defs):
                 fails.append(("bounding-gate-not-native", {}))
@@ -383,6 +404,8 @@ def process(ctx, case, seen):
     if any(s[0] == "loop" and any(x[0] == "subcircuit_block" for x in sx.walk(s[2])) for s in sx.walk(prog)):
         rec.count("sub-in-loop")
     if case.get("mode") != "exec":
+        if str(case.get("caller")).startswith("names-mixed"):
+            rec.count("caller:names-mixed")
         if case.get("caller") in ("defs", "defs-native-names"):
             rec.count("caller-bounding-gates")
             rec.count("caller:" + case["caller"])
@@ -424,7 +447,8 @@ def shard(ctx):
             case = {"prog": g.program(), "mode": "pass", "native": False, "caller": rng.choice([None, None, "defs"])}
         elif r < 0.7:
             g = gen.ExecGen(rng, max_depth=rng.choice([2, 3]), reg_size=(1, 4))
-            case = {"prog": g.program(), "mode": "pass", "native": True, "caller": rng.choice([None, "names", "defs", "defs-native-names"])}
+            case = {"prog": g.program(), "mode": "pass", "native": True,
+                    "caller": rng.choice([None, "names", "defs", "defs-native-names", "names-mixed-p", "names-mixed-m"])}
         else:
             g = gen.ExecGen(rng, max_depth=rng.choice([1, 2, 3]), reg_size=(1, 4), loop_counts=(0, 1, 2, 3),
                             body_len=(1, 4))
@@ -435,6 +459,9 @@ def shard(ctx):
                 case["prog"], case["native"] = folded, "partial"
                 case["caller"] = rng.choice([None, "defs", "names-new"])
                 rec.count("native:partial")
+                if rng.random() < 0.5:
+                    case["keep"] = rng.choice(["prepare_all", "measure_all"])
+                    rec.count("native:only-one-bounding-gate")
         if case["mode"] == "pass" and rng.random() < 0.25:
             # a subcircuit block whose body itself starts with a prepare gate or ends with a measure gate: the pass
             # still adds its own bounding gates (what the result then means is another question -- C12)
